@@ -12,57 +12,9 @@
               (3 t) -> (contains exact (filtered runes))   Contains, ExactMatch, Filter
               (4 w) -> (has)              exact, wildcard-free membership (verif probe) *)
 From Coq Require Import ZArith List Bool.
-From FV Require Import Lib.Sx C14.Model.
+From FV Require Import Lib.Sx C14.Model C14.Spec.
 Import ListNotations.
 Open Scope Z_scope.
-
-Definition zl_eqb := list_eqb Z.eqb.
-Definition zmem (x : Z) (l : list Z) : bool := existsb (Z.eqb x) l.
-Definition wmem (w : list Z) (d : list (list Z)) : bool := existsb (zl_eqb w) d.
-
-(* ---------- reference notions, stated on plain lists ---------- *)
-
-(* w is a prefix of s; with pat = true a '*' in w stands for any one character *)
-Fixpoint prefix_b (pat : bool) (w s : list Z) : bool :=
-  match w, s with
-  | [], _ => true
-  | x :: w', y :: s' => ((x =? y) || (pat && (x =? star))) && prefix_b pat w' s'
-  | _ :: _, [] => false
-  end.
-
-(* w occurs somewhere in s *)
-Fixpoint occurs_b (pat : bool) (w s : list Z) : bool :=
-  prefix_b pat w s || match s with [] => false | _ :: s' => occurs_b pat w s' end.
-
-Definition literal_word (w : list Z) : bool := negb (zmem star w).
-
-(* two words do not compete: where they first differ neither has the wildcard *)
-Fixpoint compat (a b : list Z) : bool :=
-  match a, b with
-  | x :: a', y :: b' => if x =? y then compat a' b' else negb (x =? star) && negb (y =? star)
-  | _, _ => true
-  end.
-Definition noncompeting (d : list (list Z)) : bool :=
-  forallb (fun a => forallb (compat a) d) d.
-
-(* length of the longest dictionary word that is a prefix of s (0 if none) *)
-Definition longest (d : list (list Z)) (s : list Z) : nat :=
-  fold_left (fun m w => if prefix_b false w s then Nat.max m (length w) else m) d O.
-
-(* positions of s covered by an occurrence of a dictionary word *)
-Fixpoint cover (d : list (list Z)) (m : nat) (s : list Z) : list bool :=
-  match s with
-  | [] => []
-  | _ :: s' => let m' := Nat.max m (longest d s) in
-               negb (Nat.eqb m' 0) :: cover d (pred m') s'
-  end.
-
-Fixpoint kept_outside (text out : list Z) (cov : list bool) : bool :=
-  match text, out, cov with
-  | [], [], [] => true
-  | x :: t', y :: o', c :: c' => ((x =? y) || (c && (y =? mask))) && kept_outside t' o' c'
-  | _, _, _ => false
-  end.
 
 (* ---------- decoding ---------- *)
 
@@ -122,10 +74,10 @@ Fixpoint prop (d : list (list Z)) (lastrm : option (list Z)) (ops : list hop) (o
   | o :: ops', ob :: obs' =>
       match o, ob with
       | HAdd w, SList [SInt cnt] =>
-          let d' := match w with [] => d | _ => if wmem w d then d else w :: d end in
+          let d' := dict_add w d in
           vjoin (check_that (cnt =? Z.of_nat (length d')) (VPropFail 3)) (prop d' None ops' obs')
       | HRemove w, SList [SInt ret; SInt cnt] =>
-          let d' := filter (fun v => negb (zl_eqb w v)) d in
+          let d' := dict_remove w d in
           vjoin (check_that (Bool.eqb (ret =? 1) (wmem w d)) (VPropFail 2))
          (vjoin (check_that (cnt =? Z.of_nat (length d')) (VPropFail 3)) (prop d' (Some w) ops' obs'))
       | HReset, SList [SInt cnt] =>
@@ -143,8 +95,7 @@ Fixpoint prop (d : list (list Z)) (lastrm : option (list Z)) (ops : list hop) (o
               let lit := forallb literal_word d in
               let v :=
                 if lit then
-                  vjoin (check_that (Bool.eqb (c =? 1) (existsb (fun w => occurs_b false w s) d))
-                                    (match lastrm with Some _ => VPropFail 4 | None => VPropFail 5 end))
+                  vjoin (check_that (Bool.eqb (c =? 1) (existsb (fun w => occurs_b false w s) d)) (VPropFail 5))
                  (vjoin (check_that (Nat.eqb (length f) (length s)) (VPropFail 6))
                  (vjoin (check_that (kept_outside s f (cover d O s)) (VPropFail 7))
                         (check_that (negb (existsb (fun w => occurs_b false w f) d)) (VPropFail 8))))
